@@ -177,12 +177,17 @@ def op_run_stream(job):
             with open(fname, 'w', encoding='utf-8', newline='') as f:
                 f.writelines(job['lines'])
         args = L.make_args(**job.get('args', {}))
+        columns = job['columns']
+        if job.get('columns_from_header'):
+            # the column list as the tool itself derives it from the file's header line (csv-raw)
+            from outrank.core_utils import parse_csv_raw
+            columns = list(parse_csv_raw(wd).column_names)
         rec = Recorder(job.get('opts', {}))
         undo = install(rec)
         pool = L.ScheduledPool(**job.get('pool', {}), log=(rec.ev if job.get('opts', {}).get('log_pool') else []))
         try:
             res = CR.estimate_importances_minibatches(
-                input_file=fname, column_descriptions=job['columns'], fw_col_mapping=job.get('fw_map'),
+                input_file=fname, column_descriptions=columns, fw_col_mapping=job.get('fw_map'),
                 numeric_column_types=set(job.get('numeric', [])), args=args, data_encoding='utf-8', cpu_pool=pool,
                 delimiter=job.get('delimiter', ','), logger=CaptureLogger(rec))
         finally:
@@ -191,7 +196,7 @@ def op_run_stream(job):
         final = None
         if grouped is not None:
             final = [[r.FeatureA, r.FeatureB, _scaled(r.Score), float(r.Score)] for r in grouped.itertuples()]
-        out = {'events': rec.ev, 'final': final,
+        out = {'events': rec.ev, 'final': final, 'columns_used': [str(c) for c in columns],
                'card': {c: len(h) for c, h in res[2].items()},
                'coverage': {c: [float(x) for x in v] for c, v in res[5].items()},
                'rare': {repr(k): int(v) for k, v in res[6].items()},
